@@ -75,10 +75,11 @@ impl Num {
     pub(crate) fn as_pos_usize(&self) -> Option<PosUsize> {
         match self {
             Self::Int(i) => Some(PosUsize(*i >= 0, i.unsigned_abs())),
-            Self::BigInt(i) => i
-                .magnitude()
-                .to_usize()
-                .map(|u| PosUsize(i.sign() != Sign::Minus, u)),
+            // any magnitude that does not fit into `usize` lies beyond any position
+            Self::BigInt(i) => Some(PosUsize(
+                i.sign() != Sign::Minus,
+                i.magnitude().to_usize().unwrap_or(usize::MAX),
+            )),
             _ => None,
         }
     }
